@@ -313,12 +313,15 @@ PROPS = {
                 "frames, derived codecs on valid and damaged input, the reference table, contended first use) runs under Miri against the "
                 "working tree (supporting evidence: reads of uninitialised or freed memory, out-of-bounds accesses, data races)",
         "trusted": ["rustc's borrow checker as the oracle for 'accepted by the safe API'", "the ownership machine abstracts the API to the lifetime "
-                    "edge of store_ref; the catalogue is finite", "Miri / ASan are not part of the quick check"],
-        "partial": "'all client programs' is explored through a finite catalogue; undefined behaviour after the fact is not exhibited by the model",
+                    "edge of store_ref; the catalogue is finite", "Miri (family miri) is supporting evidence for the failing-input search, not part of the proof; ASan is not used"],
+        "partial": "'all client programs' is explored through a finite catalogue (14 programs); undefined behaviour is not exhibited by the model: "
+                   "it is searched for by a scenario program under Miri and by the byte-exact comparison with the reference decoder",
         "level_text": "Proof (partial): with a lifetime bound on store_ref no accepted program ever obtains a reference to a dead object; with the "
                       "declared signature a five-step program does (proved by evaluation) — this holds of the current code and is the recorded "
                       "finding D13, demonstrated by witnesses that compile under #![forbid(unsafe_code)]. Byte arrays handed out by the reference "
-                      "decoder are slices of the input of exactly the requested length; arrays are built from exactly N decoded elements.",
+                      "decoder are slices of the input of exactly the requested length; arrays are built from exactly N decoded elements. The unsafe "
+                      "decoding paths, the frame reader and the contexts' thread-confinement are exercised on every run (raw / decl / frame / miri "
+                      "families, Send witnesses).",
         "level_note": "Known finding D13 (State::store_ref erases the borrow; repair needs an API change) is listed in known_findings.txt by witness "
                       "name; any other witness that starts compiling is a new violation.",
     },
